@@ -40,7 +40,8 @@ fn replay_line(ctx: &mut Ctx, line: &str) {
 }
 
 fn gen_name(rng: &mut Rng) -> Vec<u8> {
-    let pool: [&str; 12] = ["a", "b.c", "src/x.h", "C:/odd\\path.c", "é", "日本.h", "a:b", "o.o", "x\\y", "d/../e", "./f", "g:"];
+    let pool: [&str; 18] = ["a", "b.c", "src/x.h", "C:/odd\\path.c", "é", "日本.h", "a:b", "o.o", "x\\y", "d/../e", "./f", "g:",
+        "m$n", "p#q", "%.o", "~/h", "x$$y", "t@u"];
     let mut s = pool[rng.below(pool.len())].as_bytes().to_vec();
     if rng.chance(1, 4) {
         s.extend_from_slice(format!("{}", rng.below(50)).as_bytes());
@@ -65,6 +66,20 @@ pub fn run(ctx: &mut Ctx) {
             let mut s = Vec::with_capacity(len);
             for _ in 0..len { s.push(alpha[k % alpha.len()]); k /= alpha.len(); }
             ctx.count("exhaustive");
+            ctx.emit(&format!("depfile {}", hex(&s)), || run_one(&s));
+        }
+    }
+    // 1b. exhaustive over a second alphabet: the characters a Makefile treats specially and n2 does not
+    // (tab, CR, `$`, `#`, `%`) and a non-ASCII byte, among name characters and the structural ones
+    let alpha2: &[u8] = b"a :\\\n\t\r$#\xc3";
+    let maxlen2 = if ctx.thorough() { 5 } else { 4 };
+    for len in 1..=maxlen2 {
+        let total = alpha2.len().pow(len as u32);
+        for mut k in 0..total {
+            let mut s = Vec::with_capacity(len);
+            for _ in 0..len { s.push(alpha2[k % alpha2.len()]); k /= alpha2.len(); }
+            if s.iter().all(|c| alpha.contains(c)) { continue; }
+            ctx.count("exhaustive_special");
             ctx.emit(&format!("depfile {}", hex(&s)), || run_one(&s));
         }
     }
